@@ -363,6 +363,9 @@ def create_for_folder_subcommand(
                                 missing_asc_mhl_folder.add(new_path)
                         found_file_paths.add(not_found_path)
                 else:
+                    # directories can't be hashed like files, they are only matched by their directory hashes
+                    if os.path.isdir(os.path.join(root_path, new_path)):
+                        continue
                     old_hash_format_for_new_path = hasher.hash_file(
                         os.path.join(root_path, new_path), not_found_path_hash.hash_format
                     )
